@@ -24,6 +24,8 @@ absence of shared writes makes enumeration unnecessary for the built-in fields.
 
 Round 4: nothing of one class is stored in the namespace of the generated module (shared by
 same-named classes through sys.modules).
+
+Round 5: Prototype.__init__ paths that keep the class instead of a snapshot.
 """
 import ast
 
